@@ -26,6 +26,12 @@ def make_module(tools, opt, modname):
     gsrc = [v for k, v in r[1].items() if k.endswith(".rs")][0]
     src, shims = G.rewrite_shims(gsrc)
     guest = open(os.path.join(C7, "guest.rs")).read().replace("@PREFIX@", prefix)
+    for fn, ph in (("peek_x", "@VIEW_PARAM@"), ("inspect_x", "@AUDIT_PARAM@")):
+        m = re.search(r"fn %s\(a: ([^,]+),\)" % fn, gsrc)
+        if not m:
+            raise RuntimeError("trait method %s not found in the generated code" % fn)
+        ty = m.group(1).strip()
+        guest = guest.replace(ph, "XBorrow<'_>" if "Borrow" in ty else "&X")
     return "// genrun C07 module %s: options %s\n#![allow(warnings)]\npub mod bindings {\n%s\n}\n%s" % (modname, opt.tag(), src, guest)
 
 
@@ -98,7 +104,7 @@ class SymGen:
         if self.live_x:
             ch += [("givex", 2)]
         if self.host_b:
-            ch += [("takex", 3), ("lookx", 3), ("methodget", 1), ("hostdrop", 2)]
+            ch += [("takex", 3), ("lookx", 3), ("methodget", 1), ("peekx", 2), ("inspectx", 2), ("hostdrop", 2)]
         if len(self.host_b) >= 2:
             ch += [("merge", 1)]
         k = r.weighted(ch)
@@ -132,7 +138,7 @@ class SymGen:
             self.live_x.append(n)
             self.box_of[n] = b
             return {"kind": k, "box": b, "new": n}
-        if k in ("lookx", "methodget"):
+        if k in ("lookx", "methodget", "peekx", "inspectx"):
             return {"kind": k, "box": r.choice(self.host_b)}
         if k == "givex":
             n = r.choice(self.live_x)
@@ -259,7 +265,7 @@ def concretize(seq):
             nx += 1
             xbox[a["new"]] = a["box"]
             c.update(model=["eb", "ge:%d" % boxnum[a["box"]], "ee"], box=boxnum[a["box"]])
-        elif k in ("lookx", "methodget"):
+        elif k in ("lookx", "methodget", "peekx", "inspectx"):
             if a["box"] not in host:
                 continue
             c.update(model=["eb", "bg:%d" % boxnum[a["box"]], "ee"], box=boxnum[a["box"]])
@@ -370,11 +376,11 @@ class Native:
         elif k == "takex":
             h = int(self.ask("HT ADD 1 1 #%d" % a["box"]).split()[1])
             f = self.export(5, [h])
-        elif k in ("lookx", "methodget"):
+        elif k in ("lookx", "methodget", "peekx", "inspectx"):
             ptr = int(self.ask("HT BOXPTR #%d" % a["box"]).split()[1])
             if ptr >> 32:
                 raise RuntimeError("box pointer above 2^32: low-memory arena not active")
-            f = self.export(6 if k == "lookx" else 10, [ptr])
+            f = self.export({"lookx": 6, "methodget": 10, "peekx": 12, "inspectx": 13}[k], [ptr])
         elif k == "givex":
             f = self.export(7, [a["slot"]])
             self.ask("HT LIFTOWN %s" % f["ret"])
